@@ -176,7 +176,8 @@ def extract(F, c):
     t = c.ithir['sudoku_gen::main']
     lib_closures = c.ithir
     cx = Ctx()
-    body = t['body']
+    import facts as _facts
+    body = _facts.split_tuple_lets(_facts.hoist_try_blocks(t['body']))          # the statements of an inlined helper under `?` are statements of main; `let (i, j) = (x, y)` is two lets
     while body['k'] in ('Use', 'NeverToAny'): body = body['source']
     emissions = []; hints = []; filters = []; size_defs = {}
     fresh = [0]
@@ -683,5 +684,17 @@ def classify(F, c, em, gcx):
     a = digit_pair(Rw, ('rem', 'm')); b = digit_pair(Cl, ('div', 'm'))
     if a is not None and b is not None and a != b and len(others) == 2:
         return dict(kind='box', indices='box (%s, %s), transposed offsets' % (a, b), **desc)
+    # the boxes numbered by one index x over 0..square: (x / root, x % root) are the two box coordinates (L2 again, for the outer index)
+    def digit_of_outer(pol, digit_sym):
+        Q, Rm = divide_by(pol, 'root')
+        a = as_single_var(Q)
+        if Rm != pv(digit_sym) or not (isinstance(a, tuple) and len(a) == 2 and a[0] in ('div', 'rem')): return None
+        x = a[1]
+        if x not in others or not (full(x, {}, SQ) or full(x, {}, pmul(ROOT, ROOT))): return None
+        return a
+    for (dr, dc) in ((('div', 'm'), ('rem', 'm')), (('rem', 'm'), ('div', 'm'))):
+        a = digit_of_outer(Rw, dr); b = digit_of_outer(Cl, dc)
+        if a is not None and b is not None and a[1] == b[1] and {a[0], b[0]} == {'div', 'rem'} and len(others) == 1:
+            return dict(kind='box', indices='box %s in 0..square with coordinates (%s, %s), number in 1..=square' % (a[1], pshow(pv(a)), pshow(pv(b))), **desc)
     raise UUndec('cell index %s = (%s)*square + (%s) is neither a row, a column nor a box' % (pshow(cell), pshow(Rw), pshow(Cl)))
 
